@@ -405,7 +405,14 @@ def run(chk):
         v = jgen(rng, 3)
         jcases.append("jsonbind %s %s %s" % (hx("[j == d, j]"), binds_tokens([("j", jtok(v))]), binds_tokens([("d", jtok(v))])))
         jwant.append("OK " + vlist([vb(True), jtok(jcanon(v))]))
-    # replacing: a later JSON binding of the same name replaces a direct one (same map)
+    # replacing: a later JSON binding of the same name replaces a direct one (same map), names bound only directly stay
+    for i in range(60 if chk.tier == "quick" else 600):
+        v0, v1, v2 = jgen(rng, 2), jgen(rng, 2), jgen(rng, 1)
+        if i % 3 == 0:
+            v0, v1 = ("i", 4), ("i", 11)
+        jcases.append("jsonbind %s %s %s" % (hx("[x, keep, fresh]"), binds_tokens([("x", jtok(v1)), ("fresh", jtok(v2))]),
+                                             binds_tokens([("x", jtok(v0)), ("keep", jtok(v2))])))
+        jwant.append("OK " + vlist([jtok(jcanon(v1)), jtok(v2), jtok(jcanon(v2))]))
     jimpl, jmodel = tie(chk, "JSON binding", jcases)
     for c, r, w in zip(jcases, jimpl, jwant):
         if not is_dead(r) and r != w:
